@@ -162,8 +162,11 @@ def should_strip_fragment(fragment):
 
 
 def normalize_hostname(hostname, normalize_amp=True):
-    hostname = hostname.strip().lower()
+    # NOTE: same order as normalize_url: control characters go first, and the
+    # irrelevant labels are looked for in the decoded hostname
     hostname = CONTROL_CHARS_RE.sub("", hostname)
+    hostname = hostname.strip().lower()
+    hostname = decode_punycode_hostname(hostname).lower()
 
     pattern = IRRELEVANT_SUBDOMAIN_AMP_RE if normalize_amp else IRRELEVANT_SUBDOMAIN_RE
 
